@@ -2,6 +2,7 @@ package checks
 
 import (
 	"fmt"
+	"sync"
 
 	"bmsym/smt"
 	"bmsym/sym"
@@ -66,25 +67,41 @@ func runC20(c *Ctx, ev *Evidence) ([]Violation, error) {
 			if seen[sig] || !budget.allow(sig) {
 				return nil, nil
 			}
-			// ground refinement over candidate URL values for every input value
+			// ground refinement over candidate values for every input value: the facts
+			// net/url yields for them and, for the validURL summary symbols, what the
+			// real validURL returns for them under the replay policy
 			nt := noteTerms(r.Ob)
-			var r2 UnitResult
-			found := false
-			cands := []string{"http://a/b", "/p", "nofollow", "_blank", "anonymous", "allow-forms allow-forms", "x", "noopener nofollow", "NOFOLLOW"}
+			cands := []string{"http://a/b", "/p", " http://a/b ", " //a/b", "nofollow", "_blank", "anonymous", "allow-forms allow-forms", "x", "noopener nofollow", "NOFOLLOW"}
+			vfacts, verr := c20ValidURLFacts(c, cands)
+			if verr != nil {
+				return nil, verr
+			}
 			n := int(r.Notes["in.n"].I)
 			if n == 0 {
 				n = 1
 			}
 			idx := make([]int, n)
-			for !found {
-				var facts []*smt.Term
+			found, replays := false, 0
+			for {
+				facts := append([]*smt.Term{}, vfacts...)
 				for i := 0; i < n; i++ {
 					facts = append(facts, urlCandidateFacts(nt[fmt.Sprintf("in.v%d", i)], cands[idx[i]])...)
 				}
-				r2 = solveOb(ur.In, r.Ob, facts, timeout, grace, "C20-ground")
+				r2 := solveOb(ur.In, r.Ob, facts, timeout, grace, "C20-ground")
 				if r2.Res.Status == smt.Sat {
 					found = true
-					break
+					replays++
+					v, reproduced, err := c20Replay(c, ev, h, r2, sig)
+					if err != nil {
+						return nil, err
+					}
+					if reproduced {
+						seen[sig] = true
+						return v, nil
+					}
+					if replays >= 6 {
+						break
+					}
 				}
 				k := 0
 				for k < n {
@@ -101,48 +118,10 @@ func runC20(c *Ctx, ev *Evidence) ([]Violation, error) {
 			}
 			if !found {
 				ev.Inconclusive(fmt.Sprintf("C20: counterexample (%s, <%s>) has no concrete candidate values", r.Ob.ID, el))
-				return nil, nil
-			}
-			in := attrsFromNotes(r2.Notes, "in")
-			var pol []NativeReq
-			if h == "HarnessC20_ugc" {
-				pol = []NativeReq{{"op": "base", "name": "UGC"}}
-			} else if h == "HarnessC20_sandbox" {
-				pol = []NativeReq{{"op": "base", "name": "Zero"}, {"op": "AllowAttrs", "attrs": []string{"sandbox", "other"}, "scope": "globally"}, {"op": "RequireSandboxOnIFrame", "vals": []int{2, 10}}}
-				el = "iframe"
 			} else {
-				opts := int(r2.Notes["opts"].I)
-				flag := func(nm string, v bool) NativeReq { return NativeReq{"op": "flag", "name": nm, "val": v} }
-				pol = []NativeReq{{"op": "base", "name": "Zero"},
-					flag("RequireNoFollowOnLinks", opts&1 != 0), flag("RequireNoFollowOnFullyQualifiedLinks", opts&2 != 0),
-					flag("RequireNoReferrerOnLinks", opts&4 != 0), flag("RequireNoReferrerOnFullyQualifiedLinks", opts&8 != 0),
-					flag("AddTargetBlankToFullyQualifiedLinks", opts&16 != 0), flag("RequireCrossOriginAnonymous", opts&32 != 0),
-					flag("AllowRelativeURLs", true), {"op": "AllowURLSchemes", "schemes": []string{"http"}},
-					{"op": "AllowAttrs", "attrs": []string{"href", "src", "cite", "rel", "target", "crossorigin", "sandbox", "other"}, "scope": "globally"}}
-				if opts&64 != 0 {
-					pol = append(pol, NativeReq{"op": "RequireSandboxOnIFrame", "vals": []int{2, 10}})
-				}
+				ev.Inconclusive(fmt.Sprintf("C20: counterexample (%s, <%s>): %d concrete instance(s) did not reproduce natively", r.Ob.ID, el, replays))
 			}
-			req1 := NativeReq{"op": "sanitizeAttrs", "policy": pol, "element": el, "attrs": attrsToJSON(in)}
-			n1, nerr := RunNative(c.Repo, c.VerifDir, []NativeReq{req1}, "")
-			if nerr != nil {
-				return nil, nerr
-			}
-			o1 := decodeAttrs(n1[0]["attrs"])
-			req2 := NativeReq{"op": "sanitizeAttrs", "policy": pol, "element": el, "attrs": attrsToJSON(o1)}
-			n2, nerr := RunNative(c.Repo, c.VerifDir, []NativeReq{req2}, "")
-			if nerr != nil {
-				return nil, nerr
-			}
-			o2 := decodeAttrs(n2[0]["attrs"])
-			ev.Sample(map[string]interface{}{"query": "C20 counterexample", "element": el, "in": in, "pass1": o1, "pass2": o2})
-			if attrsEqual(o1, o2) {
-				ev.Inconclusive(fmt.Sprintf("C20: model (<%s> in=%q) did not reproduce natively: pass1=%q pass2=%q", el, in, o1, o2))
-				return nil, nil
-			}
-			ev.AddReplayed(1)
-			seen[sig] = true
-			return &Violation{Sig: sig, Detail: fmt.Sprintf("<%s> in=%q: first pass %q, second pass %q", el, in, o1, o2), Replay: []NativeReq{req1, req2}}, nil
+			return nil, nil
 		})
 		ur.In.Close()
 		if err != nil {
@@ -155,6 +134,102 @@ func runC20(c *Ctx, ev *Evidence) ([]Violation, error) {
 		}
 	}
 	return viols, nil
+}
+
+// c20Replay runs the attribute filter twice natively on a concrete model.
+func c20Replay(c *Ctx, ev *Evidence, h string, r2 UnitResult, sig string) (*Violation, bool, error) {
+	el := r2.Notes["el"].S
+	in := attrsFromNotes(r2.Notes, "in")
+	var pol []NativeReq
+	if h == "HarnessC20_ugc" {
+		pol = []NativeReq{{"op": "base", "name": "UGC"}}
+	} else if h == "HarnessC20_sandbox" {
+		pol = []NativeReq{{"op": "base", "name": "Zero"}, {"op": "AllowAttrs", "attrs": []string{"sandbox", "other"}, "scope": "globally"}, {"op": "RequireSandboxOnIFrame", "vals": []int{2, 10}}}
+		el = "iframe"
+	} else {
+		opts := int(r2.Notes["opts"].I)
+		flag := func(nm string, v bool) NativeReq { return NativeReq{"op": "flag", "name": nm, "val": v} }
+		pol = []NativeReq{{"op": "base", "name": "Zero"},
+			flag("RequireNoFollowOnLinks", opts&1 != 0), flag("RequireNoFollowOnFullyQualifiedLinks", opts&2 != 0),
+			flag("RequireNoReferrerOnLinks", opts&4 != 0), flag("RequireNoReferrerOnFullyQualifiedLinks", opts&8 != 0),
+			flag("AddTargetBlankToFullyQualifiedLinks", opts&16 != 0), flag("RequireCrossOriginAnonymous", opts&32 != 0),
+			flag("AllowRelativeURLs", true), {"op": "AllowURLSchemes", "schemes": []string{"http"}},
+			{"op": "AllowAttrs", "attrs": []string{"href", "src", "cite", "rel", "target", "crossorigin", "sandbox", "other"}, "scope": "globally"}}
+		if opts&64 != 0 {
+			pol = append(pol, NativeReq{"op": "RequireSandboxOnIFrame", "vals": []int{2, 10}})
+		}
+	}
+	req1 := NativeReq{"op": "sanitizeAttrs", "policy": pol, "element": el, "attrs": attrsToJSON(in)}
+	n1, nerr := RunNative(c.Repo, c.VerifDir, []NativeReq{req1}, "")
+	if nerr != nil {
+		return nil, false, nerr
+	}
+	o1 := decodeAttrs(n1[0]["attrs"])
+	req2 := NativeReq{"op": "sanitizeAttrs", "policy": pol, "element": el, "attrs": attrsToJSON(o1)}
+	n2, nerr := RunNative(c.Repo, c.VerifDir, []NativeReq{req2}, "")
+	if nerr != nil {
+		return nil, false, nerr
+	}
+	o2 := decodeAttrs(n2[0]["attrs"])
+	ev.Sample(map[string]interface{}{"query": "C20 counterexample", "element": el, "in": in, "pass1": o1, "pass2": o2})
+	if attrsEqual(o1, o2) {
+		c.Log("C20: model (<%s> in=%q) did not reproduce natively: pass1=%q pass2=%q", el, in, o1, o2)
+		return nil, false, nil
+	}
+	ev.AddReplayed(1)
+	return &Violation{Sig: sig, Detail: fmt.Sprintf("<%s> in=%q: first pass %q, second pass %q", el, in, o1, o2), Replay: []NativeReq{req1, req2}}, true, nil
+}
+
+var c20Facts struct {
+	sync.Mutex
+	facts []*smt.Term
+	done  bool
+}
+
+// c20ValidURLFacts: vurl.ok / vurl.out of every candidate (and of its result)
+// as the real validURL computes them under the replay policy (http allowed,
+// relative URLs allowed).
+func c20ValidURLFacts(c *Ctx, cands []string) ([]*smt.Term, error) {
+	c20Facts.Lock()
+	defer c20Facts.Unlock()
+	if c20Facts.done {
+		return c20Facts.facts, nil
+	}
+	pol := []NativeReq{{"op": "base", "name": "Zero"}, {"op": "flag", "name": "AllowRelativeURLs", "val": true}, {"op": "AllowURLSchemes", "schemes": []string{"http"}}}
+	todo := append([]string{}, cands...)
+	seen := map[string]bool{}
+	var fs []*smt.Term
+	for round := 0; round < 2 && len(todo) > 0; round++ {
+		var reqs []NativeReq
+		var keys []string
+		for _, k := range todo {
+			if !seen[k] {
+				seen[k] = true
+				keys = append(keys, k)
+				reqs = append(reqs, NativeReq{"op": "validURL", "policy": pol, "raw": k})
+			}
+		}
+		todo = nil
+		if len(reqs) == 0 {
+			break
+		}
+		res, err := RunNative(c.Repo, c.VerifDir, reqs, "")
+		if err != nil {
+			return nil, err
+		}
+		for i, k := range keys {
+			ok, _ := res[i]["ok"].(bool)
+			out, _ := res[i]["out"].(string)
+			fs = append(fs, smt.Eq(smt.UF("vurl.ok", smt.Bool, smt.StrC(k)), smt.BoolC(ok)))
+			if ok {
+				fs = append(fs, smt.Eq(smt.UF("vurl.out", smt.String, smt.StrC(k)), smt.StrC(out)))
+				fs = append(fs, groundURLFacts(out, 1)...)
+				todo = append(todo, out)
+			}
+		}
+	}
+	c20Facts.facts, c20Facts.done = fs, true
+	return fs, nil
 }
 
 // replayC20URL makes a validURL counterexample concrete with candidate URLs
